@@ -59,7 +59,8 @@ theorem CpS.liftCp_noop (s : CpS) : s.liftCp (s.cpView, false) = (s, false) := b
   simp [CpS.liftCp, CpS.cpView]
 
 /-- without `shootDownInProcess`, `processCacheFlushRsp` is the flush path's `Cp.cacheRsp` -/
-theorem CpS.cacheRsp_of_not_shoot (s : CpS) (h : s.shoot = false) : s.cacheRsp = s.liftCp s.cpView.cacheRsp := by
+theorem CpS.cacheRsp_of_not_shoot (s : CpS) (h : s.shoot = false) (hl1 : s.l1Inv = none) :
+    s.cacheRsp = s.liftCp s.cpView.cacheRsp := by
   by_cases hf : s.c.fault.isSome = true
   · have h1 : s.cpView.cacheRsp = (s.cpView, false) := by
       unfold Cp.cacheRsp; rw [if_pos (by exact hf)]
@@ -95,7 +96,7 @@ theorem CpS.cacheRsp_of_not_shoot (s : CpS) (h : s.shoot = false) : s.cacheRsp =
         rw [if_neg hf, if_neg hf']
         simp only [hc, hc']
         rw [if_neg hg2, if_neg hg']
-        simp only [h, Bool.false_eq_true, if_false]
+        simp only [h, hl1, Option.isSome_none, Bool.false_eq_true, if_false]
         have hn : (if s.cpView.numAck = 0 then 18446744073709551615 else s.cpView.numAck - 1) = dec64 s.c.numAck := rfl
         rw [hn]
         have hcur : s.cpView.curFlush = s.c.curFlush := rfl
@@ -103,10 +104,10 @@ theorem CpS.cacheRsp_of_not_shoot (s : CpS) (h : s.shoot = false) : s.cacheRsp =
         by_cases hz : dec64 s.c.numAck = 0
         · rw [if_pos hz, if_pos hz]
           cases hcf : s.c.curFlush with
-          | none => simp [CpS.liftCp, CpS.cpView, h]
-          | some f => simp [CpS.liftCp, CpS.cpView, Cp.pushDrv, h]
+          | none => simp [CpS.liftCp, CpS.cpView, h, hl1]
+          | some f => simp [CpS.liftCp, CpS.cpView, Cp.pushDrv, h, hl1]
         · rw [if_neg hz, if_neg hz]
-          simp [CpS.liftCp, CpS.cpView, h]
+          simp [CpS.liftCp, CpS.cpView, h, hl1]
 
 /-! ## 2. without a shootdown the shared component is the component of `C11Cp.lean` -/
 
@@ -121,6 +122,28 @@ structure CpS.Plain (s : CpS) : Prop where
   cuOut : s.cuOut = []
   atOut : s.atOut = []
   tlbOut : s.tlbOut = []
+  l1Inv : s.l1Inv = none
+
+/-- without a shootdown in process and with only copy / flush requests in the port, `cpMiddleware.Handle`
+    is the flush path's `Cp.handle` -/
+theorem CpS.handle_of_reqs (s : CpS) (hs : s.shoot = false) (hl : s.later = []) :
+    s.handle = s.liftCp s.cpView.handle := by
+  unfold CpS.handle
+  by_cases hf : s.c.fault.isSome = true
+  · rw [if_pos hf]
+    have h1 : s.cpView.handle = (s.cpView, false) := by
+      unfold Cp.handle; rw [if_pos (by exact hf)]
+    rw [h1, CpS.liftCp_noop]
+  · rw [if_neg hf, hl]
+    cases hd : s.c.drvIn with
+    | nil =>
+      have h1 : s.cpView.handle = (s.cpView, false) := by
+        unfold Cp.handle; rw [if_neg (by exact hf)]
+        have : s.cpView.drvIn = [] := hd
+        simp [this]
+      rw [h1, CpS.liftCp_noop]
+    | cons m rest =>
+      simp only [hs, Bool.false_eq_true, and_false, if_false]
 
 theorem CpS.liftCp_plain {s : CpS} (h : s.Plain) (f : Cp → Cp × Bool)
     (hs : ∃ evs, (f s.c).1.log = s.c.log ++ evs ∧ Cp.CpsSameCfg (f s.c).1 s.c) :
@@ -129,7 +152,7 @@ theorem CpS.liftCp_plain {s : CpS} (h : s.Plain) (f : Cp → Cp × Bool)
   rw [CpS.cpView_of_nil s h.outEarlier]
   obtain ⟨evs, _, hc⟩ := hs
   refine ⟨Cp.cps_with_capDrv_self _ _ hc.2.2.1, rfl, ?_⟩
-  exact ⟨h.shoot, h.later, h.outEarlier, h.cuIn, h.atIn, h.tlbIn, h.cuOut, h.atOut, h.tlbOut⟩
+  exact ⟨h.shoot, h.later, h.outEarlier, h.cuIn, h.atIn, h.tlbIn, h.cuOut, h.atOut, h.tlbOut, h.l1Inv⟩
 
 theorem CpS.hShoot_plain {s : CpS} (h : s.Plain) : s.hShoot = (s, false) := by
   unfold CpS.hShoot
@@ -158,13 +181,13 @@ theorem CpS.pass_plain {s : CpS} (h : s.Plain) :
   obtain ⟨a1, a2, a3⟩ := CpS.liftCp_plain h Cp.handle (Cp.cps_handle_shape s.c)
   obtain ⟨b1, b2, b3⟩ := CpS.liftCp_plain a3 Cp.dmaRsp (Cp.cps_dmaRsp_shape _)
   have hk := CpS.liftCp_plain b3 Cp.cacheRsp (Cp.cps_cacheRsp_shape _)
-  rw [← CpS.cacheRsp_of_not_shoot _ b3.shoot] at hk
+  rw [← CpS.cacheRsp_of_not_shoot _ b3.shoot b3.l1Inv] at hk
   obtain ⟨k1, k2, k3⟩ := hk
   have hh := CpS.hShoot_plain b3
   have hu := CpS.rCU_plain b3
   have ht := CpS.rAT_plain b3
   have hl := CpS.rTLB_plain k3
-  simp only [CpS.pass, Cp.pass, CpS.handle, CpS.dmaRsp, hh, hu, ht, hl, Bool.or_false]
+  simp only [CpS.pass, Cp.pass, CpS.handle_of_reqs s h.shoot h.later, CpS.dmaRsp, hh, hu, ht, hl, Bool.or_false]
   refine ⟨?_, ?_, k3⟩
   · rw [k1, b1, a1]
   · rw [k2, b2, a2, b1, a1]
@@ -200,11 +223,11 @@ theorem cps_filterMap_ans_map (l : List CpMsg) : (l.map SOut.ans).filterMap SOut
   | cons a l ih => simp [SOut.ans?, ih]
 
 macro "cps_plain_close" : tactic =>
-  `(tactic| (refine ⟨⟨?_, ?_, ?_, ?_, ?_, ?_, ?_, ?_, ?_⟩, ?_, ?_, ?_⟩ <;> first | assumption | rfl | (simp_all; done)))
+  `(tactic| (refine ⟨⟨?_, ?_, ?_, ?_, ?_, ?_, ?_, ?_, ?_, ?_⟩, ?_, ?_, ?_⟩ <;> first | assumption | rfl | (simp_all; done)))
 
 theorem CpSEnv.step_plain {e : CpSEnv} (h : e.Plain) (op : CpOp) :
     (e.step (.cp op)).1.toCp = (e.toCp.step op).1 ∧ (e.step (.cp op)).1.Plain := by
-  obtain ⟨⟨p1, p2, p3, p4, p5, p6, p7, p8, p9⟩, h1, h2, h3⟩ := h
+  obtain ⟨⟨p1, p2, p3, p4, p5, p6, p7, p8, p9, p10⟩, h1, h2, h3⟩ := h
   cases op with
   | req k =>
     by_cases hc : e.s.c.drvIn.length < e.s.c.capIn
@@ -215,7 +238,7 @@ theorem CpSEnv.step_plain {e : CpSEnv} (h : e.Plain) (op : CpOp) :
         if_true, CpSEnv.toCp, hc, if_false]
       exact ⟨trivial, by cps_plain_close⟩
   | tick =>
-    obtain ⟨t1, t2, t3⟩ := CpS.tick_plain ⟨p1, p2, p3, p4, p5, p6, p7, p8, p9⟩
+    obtain ⟨t1, t2, t3⟩ := CpS.tick_plain ⟨p1, p2, p3, p4, p5, p6, p7, p8, p9, p10⟩
     refine ⟨?_, ⟨t3, h1, h2, h3⟩⟩
     simp only [CpSEnv.step, CpEnv.step, CpSEnv.toCp, t1]
   | takeDma k => exact ⟨rfl, by cps_plain_close⟩
@@ -259,13 +282,13 @@ theorem cps_cacheStr_small {l : List Nat} (h : ∀ x ∈ l, x < resetBase) : l.m
 
 theorem CpSEnv.step_plain_str {e : CpSEnv} (h : e.Plain) (hs : ∀ x ∈ e.s.c.cacheOut, x < resetBase) (op : CpOp) :
     (e.step (.cp op)).2 = (e.toCp.step op).2 := by
-  obtain ⟨⟨p1, p2, p3, p4, p5, p6, p7, p8, p9⟩, h1, h2, h3⟩ := h
+  obtain ⟨⟨p1, p2, p3, p4, p5, p6, p7, p8, p9, p10⟩, h1, h2, h3⟩ := h
   cases op with
   | req k =>
     simp only [CpSEnv.step, CpEnv.step, CpS.portLen, p2, List.length_nil, Nat.add_zero, CpSEnv.toCp]
     split <;> simp [*]
   | tick =>
-    obtain ⟨t1, t2, t3⟩ := CpS.tick_plain ⟨p1, p2, p3, p4, p5, p6, p7, p8, p9⟩
+    obtain ⟨t1, t2, t3⟩ := CpS.tick_plain ⟨p1, p2, p3, p4, p5, p6, p7, p8, p9, p10⟩
     simp only [CpSEnv.step, CpEnv.step, CpSEnv.toCp]
     rw [t1, t2]
     rfl
@@ -299,12 +322,19 @@ def SOp.cp? : SOp → Option CpOp
   | _ => none
 
 /-- a move that is neither a shootdown nor a move of the copy / flush environment finds nothing -/
-theorem CpSEnv.step_plain_other {e : CpSEnv} (h : e.Plain) (op : SOp) (hop : op ≠ .shoot) (hc : op.cp? = none) :
+theorem CpSEnv.step_plain_other {e : CpSEnv} (h : e.Plain) (op : SOp) (hop : op ≠ .shoot) (hop2 : op ≠ .launch)
+    (hc : op.cp? = none) :
     (e.step op).1.toCp = e.toCp ∧ (e.step op).1.Plain := by
-  obtain ⟨⟨p1, p2, p3, p4, p5, p6, p7, p8, p9⟩, h1, h2, h3⟩ := h
+  obtain ⟨⟨p1, p2, p3, p4, p5, p6, p7, p8, p9, p10⟩, h1, h2, h3⟩ := h
   cases op with
   | cp op => simp [SOp.cp?] at hc
   | shoot => exact absurd rfl hop
+  | launch => exact absurd rfl hop2
+  | kdone =>
+    simp only [CpSEnv.step]
+    split
+    · exact ⟨rfl, by cps_plain_close⟩
+    · exact ⟨rfl, by cps_plain_close⟩
   | query => exact ⟨rfl, by cps_plain_close⟩
   | take c k =>
     cases c <;> simp only [CpSEnv.step, CpS.out, CpS.setOut, CpSEnv.setPend, CpSEnv.pend, p7, p8, p9, List.take_nil,
@@ -312,15 +342,16 @@ theorem CpSEnv.step_plain_other {e : CpSEnv} (h : e.Plain) (op : SOp) (hop : op 
   | ack c j =>
     cases c <;> simp only [CpSEnv.step, CpSEnv.pend, h1, h2, h3] <;> exact ⟨trivial, by cps_plain_close⟩
 
-theorem CpSEnv.run_plain (ops : List SOp) {e : CpSEnv} (h : e.Plain) (hn : ∀ op ∈ ops, op ≠ SOp.shoot) :
+theorem CpSEnv.run_plain (ops : List SOp) {e : CpSEnv} (h : e.Plain)
+    (hn : ∀ op ∈ ops, op ≠ SOp.shoot ∧ op ≠ SOp.launch) :
     (e.run ops).toCp = e.toCp.run (ops.filterMap SOp.cp?) ∧ (e.run ops).Plain := by
   induction ops generalizing e with
   | nil => exact ⟨rfl, h⟩
   | cons op ops ih =>
-    have hn' : ∀ o ∈ ops, o ≠ SOp.shoot := fun o ho => hn o (List.mem_cons_of_mem _ ho)
+    have hn' : ∀ o ∈ ops, o ≠ SOp.shoot ∧ o ≠ SOp.launch := fun o ho => hn o (List.mem_cons_of_mem _ ho)
     cases hc : op.cp? with
     | none =>
-      obtain ⟨a, b⟩ := CpSEnv.step_plain_other h op (hn op (List.mem_cons_self ..)) hc
+      obtain ⟨a, b⟩ := CpSEnv.step_plain_other h op (hn op (List.mem_cons_self ..)).1 (hn op (List.mem_cons_self ..)).2 hc
       obtain ⟨c, d⟩ := ih b hn'
       simp only [CpSEnv.run, List.filterMap_cons, hc]
       exact ⟨by rw [c, a], d⟩
@@ -402,17 +433,21 @@ def CpS.withC (s : CpS) (c : Cp) (evs : List CpEv) : CpS := { s with c := c, log
 theorem CpS.withC_self (s : CpS) : s.withC s.c [] = s := by
   simp [CpS.withC]
 
-theorem CpS.handle_cases (s : CpS) :
-    s.handle = (s, false) ∨
+/-- the copy / flush part of `cpMiddleware.Handle` (the whole of it before the kernel-start
+    invalidation and the flush / shootdown exclusion were added) -/
+def CpS.handleCp (s : CpS) : CpS × Bool := s.liftCp s.cpView.handle
+
+theorem CpS.handleCp_cases (s : CpS) :
+    s.handleCp = (s, false) ∨
     (∃ m rest, s.c.fault = none ∧ s.c.drvIn = m :: rest ∧ s.c.numAck = 0 ∧ m.kind = .flush ∧
       ((∃ k, k < s.c.nCaches ∧ s.c.capCache ≤ s.c.cacheOut.length + k ∧
-          s.handle = (s.withC { s.c.flushAsk m.id k with fault := some "cache_send" }
+          s.handleCp = (s.withC { s.c.flushAsk m.id k with fault := some "cache_send" }
             (.flushStart m.id :: (List.range k).map CpEv.cacheReq), true)) ∨
        (0 < s.c.nCaches ∧
-          s.handle = (s.withC { s.c.flushAsk m.id s.c.nCaches with curFlush := some m.id, drvIn := rest }
+          s.handleCp = (s.withC { s.c.flushAsk m.id s.c.nCaches with curFlush := some m.id, drvIn := rest }
             (.flushStart m.id :: (List.range s.c.nCaches).map CpEv.cacheReq), true)) ∨
        (s.c.nCaches = 0 ∧ s.outLen < s.c.capDrv ∧
-          s.handle = (s.withC
+          s.handleCp = (s.withC
             { s.c with
               log := s.c.log ++ [.flushStart m.id, .flushDone m.id true]
               curFlush := some m.id
@@ -421,11 +456,11 @@ theorem CpS.handle_cases (s : CpS) :
             [.flushStart m.id, .flushDone m.id true], true)))) ∨
     (∃ m rest, s.c.fault = none ∧ s.c.drvIn = m :: rest ∧ s.c.numAck = 0 ∧ m.kind ≠ .flush ∧
       s.c.dmaOut.length < s.c.capDma ∧
-      s.handle = (s.withC (s.c.copyFwd m rest true) [.fwd m.id s.c.nextCid m.kind true], true)) := by
+      s.handleCp = (s.withC (s.c.copyFwd m rest true) [.fwd m.id s.c.nextCid m.kind true], true)) := by
   have hroom : (s.cpView.drvOut.length < s.cpView.capDrv) ↔ s.outLen < s.c.capDrv := by
     show s.c.drvOut.length < s.c.capDrv - s.outEarlier.length ↔ _
     unfold CpS.outLen; omega
-  unfold CpS.handle
+  unfold CpS.handleCp
   rcases Cp.handle_cases s.cpView with h | ⟨m, rest, hf, hd, hn, hk, ⟨k, h1, h2, h⟩ | ⟨h1, h⟩ | ⟨h1, h2, h⟩⟩ |
     ⟨m, rest, hf, hd, hn, hk, hb, h⟩
   · left; rw [h, CpS.liftCp_noop]
@@ -445,6 +480,42 @@ theorem CpS.handle_cases (s : CpS) :
     refine ⟨m, rest, hf, hd, hn, hk, hb, ?_⟩
     rw [h, CpS.liftCp_eq s _ [.fwd m.id s.c.nextCid m.kind true] rfl]
     rfl
+
+/-- `cpMiddleware.Handle`: nothing happens, or the copy / flush path handles the head of the port (a flush
+    only without `shootDownInProcess`), or a kernel launch request is at the head of the port -/
+theorem CpS.handle_split (s : CpS) :
+    s.handle = (s, false) ∨
+    (∃ m rest, s.c.drvIn = m :: rest ∧ (m.kind = .flush → s.shoot = false) ∧ s.handle = s.handleCp) ∨
+    (∃ id rest, s.c.fault = none ∧ s.c.drvIn = [] ∧ s.later = .launch id :: rest ∧ s.handle = s.launch id rest) := by
+  unfold CpS.handle
+  by_cases hf : s.c.fault.isSome = true
+  · left; rw [if_pos hf]
+  · rw [if_neg hf]
+    have hfn : s.c.fault = none := by
+      cases h : s.c.fault with
+      | none => rfl
+      | some x => rw [h] at hf; simp at hf
+    cases hd : s.c.drvIn with
+    | nil =>
+      cases hl : s.later with
+      | nil => left; rfl
+      | cons x rest =>
+        cases x with
+        | req m => left; rfl
+        | shoot id => left; rfl
+        | launch id => right; right; exact ⟨id, rest, hfn, rfl, rfl, rfl⟩
+    | cons m rest =>
+      simp only
+      by_cases hk : m.kind = .flush ∧ s.shoot = true
+      · left; rw [if_pos hk]
+      · right; left
+        rw [if_neg hk]
+        refine ⟨m, rest, rfl, ?_, ?_⟩
+        · intro hfl
+          cases hs : s.shoot with
+          | false => rfl
+          | true => exact absurd ⟨hfl, hs⟩ hk
+        · rfl
 
 theorem CpS.dmaRsp_cases (s : CpS) :
     s.dmaRsp = (s, false) ∨
@@ -470,7 +541,7 @@ theorem CpS.dmaRsp_cases (s : CpS) :
     rfl
 
 /-- `processCacheFlushRsp` without `shootDownInProcess` -/
-theorem CpS.cacheRsp_cases (s : CpS) (hs : s.shoot = false) :
+theorem CpS.cacheRsp_cases (s : CpS) (hs : s.shoot = false) (hl1 : s.l1Inv = none) :
     s.cacheRsp = (s, false) ∨
     (∃ x rest n', s.c.fault = none ∧ s.c.cacheIn = x :: rest ∧ (0 < s.c.numAck → n' = s.c.numAck - 1) ∧
       ((n' ≠ 0 ∧ s.cacheRsp = (s.withC { s.c with numAck := n', cacheIn := rest, log := s.c.log ++ [.ack] } [.ack], true)) ∨
@@ -493,7 +564,7 @@ theorem CpS.cacheRsp_cases (s : CpS) (hs : s.shoot = false) :
   have hroom : (s.cpView.drvOut.length < s.cpView.capDrv) ↔ s.outLen < s.c.capDrv := by
     show s.c.drvOut.length < s.c.capDrv - s.outEarlier.length ↔ _
     unfold CpS.outLen; omega
-  rw [CpS.cacheRsp_of_not_shoot s hs]
+  rw [CpS.cacheRsp_of_not_shoot s hs hl1]
   rcases Cp.cacheRsp_cases s.cpView with h | ⟨x, rest, n', hf, hd, hn, ⟨hz, h⟩ | ⟨hz, hc, h⟩ | ⟨hz, f, hc, hb, h⟩⟩
   · left; rw [h, CpS.liftCp_noop]
   · right
@@ -574,16 +645,19 @@ theorem CpSEnv.run_pres {P : CpSEnv → Prop} (hstep : ∀ e op, P e → P (e.st
 
 /-! ### events of the shared counter -/
 
-/-- `numCacheACK++`: a cache flush request of the flush path or a reset request of the shootdown path -/
+/-- `numCacheACK++`: a cache flush request of the flush path, a reset request of the shootdown path or a
+    kernel-start invalidation request -/
 def SEv.isCacheAsk : SEv → Bool
   | .cp (.cacheReq _) => true
   | .reset _ _ => true
+  | .inval _ _ => true
   | _ => false
 
 /-- `numCacheACK--` -/
 def SEv.isCacheAck : SEv → Bool
   | .cp .ack => true
   | .ackS => true
+  | .ackI => true
   | _ => false
 
 /-- a reset request lost by the unchecked `ToCaches.Send` -/
@@ -731,8 +805,8 @@ theorem CpsCacheInv.of_log {e e' : CpSEnv} (h : CpsCacheInv e) (evs : List SEv) 
   · rw [h5, h6, List.countP_append, n3]; exact c
   · rw [h6]; exact d.append_nofwd n4
 
-theorem CpsCacheInv.handle (e : CpSEnv) (h : CpsCacheInv e) : CpsCacheInv (e.withS e.s.handle.1) := by
-  rcases CpS.handle_cases e.s with h0 | ⟨m, rest, hf, hd, hn, hk, ⟨k, h1, h2, h0⟩ | ⟨h1, h0⟩ | ⟨h1, h2, h0⟩⟩ |
+theorem CpsCacheInv.handleCp (e : CpSEnv) (h : CpsCacheInv e) : CpsCacheInv (e.withS e.s.handleCp.1) := by
+  rcases CpS.handleCp_cases e.s with h0 | ⟨m, rest, hf, hd, hn, hk, ⟨k, h1, h2, h0⟩ | ⟨h1, h0⟩ | ⟨h1, h2, h0⟩⟩ |
     ⟨m, rest, hf, hd, hn, hk, hb, h0⟩
   all_goals rw [h0]
   · exact h
@@ -770,6 +844,109 @@ theorem CpsCacheInv.handle (e : CpSEnv) (h : CpsCacheInv e) : CpsCacheInv (e.wit
     · simp [Cp.copyFwd]
     · simp [Cp.copyFwd]
 
+/-- the loop of `invalidateCache`: `k` requests were sent (all of them unless ToCaches ran full: panic) -/
+theorem CpS.foldl_invalidate_shape (id : Nat) : ∀ (ms : List Nat) (s : CpS), s.c.fault = none →
+    ∃ k, k ≤ ms.length ∧
+      (ms.foldl (CpS.invalidate id) s).c.cacheOut = s.c.cacheOut ++ (ms.take k).map (invBase + ·) ∧
+      (ms.foldl (CpS.invalidate id) s).c.numAck = s.c.numAck + k ∧
+      (ms.foldl (CpS.invalidate id) s).c.cacheIn = s.c.cacheIn ∧
+      (ms.foldl (CpS.invalidate id) s).dropC = s.dropC ∧
+      (ms.foldl (CpS.invalidate id) s).log = s.log ++ (ms.take k).map (SEv.inval id) ∧
+      ((ms.foldl (CpS.invalidate id) s).c.fault = none → k = ms.length)
+  | [], s, _ => ⟨0, Nat.le_refl _, by simp, rfl, rfl, rfl, by simp, fun _ => rfl⟩
+  | i :: ms, s, hf => by
+    simp only [List.foldl_cons]
+    by_cases hroom : s.c.cacheOut.length < s.c.capCache
+    · have e1 : CpS.invalidate id s i =
+          { s with c := { s.c with cacheOut := s.c.cacheOut ++ [invBase + i], numAck := s.c.numAck + 1 },
+                   log := s.log ++ [.inval id i] } := by
+        unfold CpS.invalidate; rw [hf]; simp [hroom]
+      obtain ⟨k, hk, a1, a2, a3, a4, a5, a6⟩ := CpS.foldl_invalidate_shape id ms (CpS.invalidate id s i) (by rw [e1]; exact hf)
+      refine ⟨k + 1, by simp; omega, ?_, ?_, ?_, ?_, ?_, ?_⟩
+      · rw [a1, e1]; simp
+      · rw [a2, e1]; simp; omega
+      · rw [a3, e1]
+      · rw [a4, e1]
+      · rw [a5, e1]; simp
+      · intro h; rw [a6 h]; simp
+    · have e1 : CpS.invalidate id s i = { s with c := { s.c with fault := some "cache_send" } } := by
+        unfold CpS.invalidate; rw [hf]; simp [hroom]
+      have hstuck : ∀ (l : List Nat) (t : CpS), t.c.fault.isSome = true → l.foldl (CpS.invalidate id) t = t := by
+        intro l
+        induction l with
+        | nil => intro t _; rfl
+        | cons x xs ih =>
+          intro t ht
+          simp only [List.foldl_cons]
+          have : CpS.invalidate id t x = t := by unfold CpS.invalidate; rw [if_pos ht]
+          rw [this]; exact ih t ht
+      rw [hstuck ms _ (by rw [e1]; rfl), e1]
+      exact ⟨0, Nat.zero_le _, by simp, rfl, rfl, rfl, by simp, fun h => by simp at h⟩
+
+/-- a stage that asks `k` caches (or none) and appends events that are not forwards -/
+theorem CpsCacheInv.ofAsk {e e' : CpSEnv} (h : CpsCacheInv e) (k : Nat) (evs : List SEv)
+    (h1 : e'.s.c.numAck = e.s.c.numAck + k) (h2 : e'.s.c.cacheOut.length = e.s.c.cacheOut.length + k)
+    (h3 : e'.atCaches = e.atCaches) (h4 : e'.s.c.cacheIn = e.s.c.cacheIn) (h5 : e'.s.dropC = e.s.dropC)
+    (h6 : e'.s.log = e.s.log ++ evs) (n1 : evs.countP SEv.isCacheAsk = k) (n2 : evs.countP SEv.isCacheAck = 0)
+    (n3 : evs.countP SEv.isResetDrop = 0) (n4 : ∀ ev ∈ evs, ev.isFwd = false) : CpsCacheInv e' := by
+  obtain ⟨a, b, c, d⟩ := h
+  refine ⟨by rw [h1, h2, h3, h4, h5]; omega, ?_, ?_, ?_⟩
+  · rw [h1, h6, List.countP_append, List.countP_append, n1, n2]; omega
+  · rw [h5, h6, List.countP_append, n3]; exact c
+  · rw [h6]; exact d.append_nofwd n4
+
+theorem cps_countP_inval (id : Nat) (l : List Nat) :
+    (l.map (SEv.inval id)).countP SEv.isCacheAsk = l.length ∧ (l.map (SEv.inval id)).countP SEv.isCacheAck = 0 ∧
+    (l.map (SEv.inval id)).countP SEv.isResetDrop = 0 ∧ ∀ ev ∈ l.map (SEv.inval id), ev.isFwd = false := by
+  refine ⟨?_, ?_, ?_, ?_⟩
+  · rw [List.countP_map]
+    have : (SEv.isCacheAsk ∘ SEv.inval id) = fun _ => true := by funext i; rfl
+    rw [this, List.countP_true]
+  · rw [List.countP_map]
+    have : (SEv.isCacheAck ∘ SEv.inval id) = fun _ => false := by funext i; rfl
+    rw [this, List.countP_false]; rfl
+  · rw [List.countP_map]
+    have : (SEv.isResetDrop ∘ SEv.inval id) = fun _ => false := by funext i; rfl
+    rw [this, List.countP_false]; rfl
+  · intro ev hev
+    obtain ⟨i, _, rfl⟩ := List.mem_map.1 hev
+    rfl
+
+/-- `processLaunchKernelReq` keeps the account of the shared counter -/
+theorem CpsCacheInv.launch (e : CpSEnv) (h : CpsCacheInv e) (hf : e.s.c.fault = none) (id : Nat) (rest : List SIn) :
+    CpsCacheInv (e.withS (e.s.launch id rest).1) := by
+  have hk : ∀ t : CpS, CpsCacheInv (e.withS t) → CpsCacheInv (e.withS (t.kstart id rest)) := by
+    intro t ht
+    refine ht.of_log [.kstart id] rfl rfl rfl rfl rfl rfl (by simp [SEv.isCacheAsk]) (by simp [SEv.isCacheAck])
+      (by simp [SEv.isResetDrop]) ?_
+    intro ev hev; simp at hev; subst hev; rfl
+  unfold CpS.launch
+  split
+  · exact h
+  · split
+    · exact h
+    · split
+      · exact hk e.s h
+      · split
+        · exact hk e.s h
+        · obtain ⟨k, hkl, a1, a2, a3, a4, a5, a6⟩ := CpS.foldl_invalidate_shape id e.s.ordInval e.s hf
+          obtain ⟨c1, c2, c3, c4⟩ := cps_countP_inval id (e.s.ordInval.take k)
+          have h1 : CpsCacheInv (e.withS (e.s.ordInval.foldl (CpS.invalidate id) e.s)) := by
+            refine h.ofAsk k _ a2 (by simp only [CpSEnv.withS_s]; rw [a1]; simp; omega) rfl a3 a4 a5 ?_ c2 c3 c4
+            rw [c1]; simp; omega
+          simp only
+          split
+          · exact h1
+          · split
+            · exact hk _ h1
+            · exact h1.of_eq rfl rfl rfl rfl rfl rfl
+
+theorem CpsCacheInv.handle (e : CpSEnv) (h : CpsCacheInv e) : CpsCacheInv (e.withS e.s.handle.1) := by
+  rcases CpS.handle_split e.s with h0 | ⟨m, rest, _, _, h0⟩ | ⟨id, rest, hf, _, _, h0⟩
+  · rw [h0]; exact h
+  · rw [h0]; exact CpsCacheInv.handleCp e h
+  · rw [h0]; exact CpsCacheInv.launch e h hf id rest
+
 theorem CpsCacheInv.dmaRsp (e : CpSEnv) (h : CpsCacheInv e) : CpsCacheInv (e.withS e.s.dmaRsp.1) := by
   rcases CpS.dmaRsp_cases e.s with h0 | ⟨c, rest, hf, hd, hb, ⟨o, k, hl, h0⟩ | ⟨hH, hD, h0⟩⟩
   all_goals rw [h0]
@@ -802,14 +979,17 @@ theorem CpsCacheInv.hShoot (e : CpSEnv) (h : CpsCacheInv e) : CpsCacheInv (e.wit
   · split
     · split
       · exact h
-      · refine h.of_log _ rfl rfl rfl rfl rfl rfl ?_ ?_ ?_ ?_
-        · rw [List.countP_cons, cps_countP_sendEvs]; simp [SEv.isCacheAsk]
-        · rw [List.countP_cons, cps_countP_sendEvs]; simp [SEv.isCacheAck]
-        · rw [List.countP_cons, cps_countP_sendEvs]; simp [SEv.isResetDrop]
-        · intro ev hev
-          rcases List.mem_cons.1 hev with rfl | hev
-          · rfl
-          · exact cps_sendEvs_nofwd _ (fun _ _ => rfl) _ _ ev hev
+      · split
+        · exact h
+        · unfold CpS.shootAccept
+          refine h.of_log _ rfl rfl rfl rfl rfl rfl ?_ ?_ ?_ ?_
+          · rw [List.countP_cons, cps_countP_sendEvs]; simp [SEv.isCacheAsk]
+          · rw [List.countP_cons, cps_countP_sendEvs]; simp [SEv.isCacheAck]
+          · rw [List.countP_cons, cps_countP_sendEvs]; simp [SEv.isResetDrop]
+          · intro ev hev
+            rcases List.mem_cons.1 hev with rfl | hev
+            · rfl
+            · exact cps_sendEvs_nofwd _ (fun _ _ => rfl) _ _ ev hev
     · exact h
 
 theorem CpsCacheInv.rCU (e : CpSEnv) (h : CpsCacheInv e) : CpsCacheInv (e.withS e.s.rCU.1) := by
@@ -902,8 +1082,8 @@ theorem CpsCacheInv.rAT (e : CpSEnv) (h : CpsCacheInv e) : CpsCacheInv (e.withS 
       · exact h.of_eq rfl rfl rfl rfl rfl rfl
 
 theorem CpsCacheInv.cacheRsp (e : CpSEnv) (h : CpsCacheInv e) : CpsCacheInv (e.withS e.s.cacheRsp.1) := by
-  by_cases hs : e.s.shoot = false
-  · rcases CpS.cacheRsp_cases e.s hs with h0 | ⟨x, rest, n', hf, hd, hn, ⟨hz, h0⟩ | ⟨hz, hc, h0⟩ | ⟨hz, f, hc, hb, h0⟩⟩
+  by_cases hs : e.s.shoot = false ∧ e.s.l1Inv = none
+  · rcases CpS.cacheRsp_cases e.s hs.1 hs.2 with h0 | ⟨x, rest, n', hf, hd, hn, ⟨hz, h0⟩ | ⟨hz, hc, h0⟩ | ⟨hz, f, hc, hb, h0⟩⟩
     all_goals rw [h0]
     · exact h
     all_goals
@@ -928,6 +1108,39 @@ theorem CpsCacheInv.cacheRsp (e : CpSEnv) (h : CpsCacheInv e) : CpsCacheInv (e.w
       · simp; omega
       · simp [hd]; omega
       · intro ev hev; simp at hev; rcases hev with rfl | rfl <;> rfl
+  by_cases hs1 : e.s.shoot = false
+  · -- an acknowledgement of the kernel-start invalidation: `numCacheACK--`, nothing else
+    have hl : e.s.l1Inv.isSome = true := by
+      cases hh : e.s.l1Inv with
+      | none => exact absurd ⟨hs1, hh⟩ hs
+      | some x => rfl
+    unfold CpS.cacheRsp
+    split
+    · exact h
+    · split
+      · exact h
+      · rename_i x rest hd
+        have hpos : 0 < e.s.c.numAck := by
+          have := h.count; rw [hd] at this; simp at this; omega
+        have hdec : dec64 e.s.c.numAck = e.s.c.numAck - 1 := by
+          unfold dec64; rw [if_neg (by omega)]
+        split
+        · exact h
+        · simp only [hs1, Bool.false_eq_true, if_false, hl, if_true]
+          obtain ⟨h1, h2, h3, h4⟩ := h
+          rw [hd] at h1
+          simp only [List.length_cons] at h1
+          refine ⟨?_, ?_, ?_, ?_⟩
+          · simp only [CpSEnv.withS_s, CpSEnv.withS_atCaches, hdec]; omega
+          · simp only [CpSEnv.withS_s, List.countP_append, hdec]
+            simp [SEv.isCacheAsk, SEv.isCacheAck]
+            omega
+          · simp only [CpSEnv.withS_s, List.countP_append]
+            simp [SEv.isResetDrop]
+            exact h3
+          · simp only [CpSEnv.withS_s]
+            apply h4.append_nofwd
+            intro ev hev; simp at hev; subst hev; rfl
   · have hs' : e.s.shoot = true := by
       cases h : e.s.shoot <;> simp_all
     unfold CpS.cacheRsp
@@ -1033,6 +1246,16 @@ theorem CpsCacheInv.step (e : CpSEnv) (op : SOp) (h : CpsCacheInv e) : CpsCacheI
       · exact h
       · cases c <;> exact h.of_eq rfl rfl rfl rfl rfl rfl
   | query => exact h
+  | launch =>
+    simp only [CpSEnv.step]
+    split
+    · exact h.of_eq rfl rfl rfl rfl rfl rfl
+    · exact h
+  | kdone =>
+    simp only [CpSEnv.step]
+    split
+    · exact h
+    · exact h.of_eq rfl rfl rfl rfl rfl rfl
 
 theorem CpsCacheInv.init (g : CpSCfg) : CpsCacheInv (CpSEnv.init g) := by
   refine ⟨rfl, rfl, rfl, ?_⟩
@@ -1132,8 +1355,12 @@ theorem CpsSteps.inv {a b : CpEnv} (t : CpsSteps a b) (h : CpInvAll a) (hcap : a
 def cpsIsFlushMsg (m : CpMsg) : Bool := decide (m.kind = .flush)
 
 def SIn.isShoot : SIn → Bool
-  | .req _ => false
   | .shoot _ => true
+  | _ => false
+
+def SIn.isLaunch : SIn → Bool
+  | .launch _ => true
+  | _ => false
 
 /-- the driver has sent a flush request whose answer it has not yet received -/
 def CpSEnv.flushOut (e : CpSEnv) : Bool :=
@@ -1142,12 +1369,11 @@ def CpSEnv.flushOut (e : CpSEnv) : Bool :=
 /-- the driver has sent a shootdown command whose `ShootdownCompleteRsp` it has not yet received -/
 def CpSEnv.shootOut (e : CpSEnv) : Bool := decide (e.drained.countP SOut.isDone < e.shootSent)
 
-/-- the driver's discipline: no shootdown command while a flush request is unanswered, no flush
-    request while a shootdown is uncompleted (everything else — copies, ticks, the components' moves —
-    at any time) -/
-def CpSEnv.okOp (e : CpSEnv) : SOp → Bool
-  | .cp (.req .flush) => !e.shootOut
-  | .shoot => !e.flushOut
+/-- the runs covered by the invariant below: no kernel launch request is delivered (flush requests,
+    copies, shootdown commands, ticks and the components' moves in ANY order — since repair 0728adcb the
+    command processor itself keeps a flush and a shootdown apart) -/
+def CpSEnv.okOp (_e : CpSEnv) : SOp → Bool
+  | .launch => false
   | _ => true
 
 /-- every move of the run respects the discipline in the state it is made in -/
@@ -1309,7 +1535,7 @@ theorem CpsSteps.kinds {a b : CpEnv} (t : CpsSteps a b) (h : CpsLogKinds a) : Cp
 def CpS.cfg (s : CpS) : CpSCfg :=
   { nCU := s.nCU, nAT := s.nAT, nTLB := s.nTLB, nI := s.nI, nS := s.nS, nV := s.nV, n2 := s.n2,
     capIn := s.c.capIn, capDrv := s.c.capDrv, capDma := s.c.capDma, capCache := s.c.capCache,
-    capCU := s.capCU, capAT := s.capAT, capTLB := s.capTLB }
+    capCU := s.capCU, capAT := s.capAT, capTLB := s.capTLB, nDisp := s.nDisp }
 
 /-- the shootdown's bookkeeping in a serialised run (configuration `g`, `g.Roomy`) -/
 structure CpsSerRest (g : CpSCfg) (e : CpSEnv) : Prop where
@@ -1330,7 +1556,8 @@ structure CpsSerRest (g : CpSCfg) (e : CpSEnv) : Prop where
   live : e.s.shoot = true → 0 < e.s.numCU + e.s.numAT + e.s.c.numAck + e.s.numTLB
   book : e.shootSent = e.s.later.countP SIn.isShoot + e.drained.countP SOut.isDone +
     e.s.outEarlier.countP SOut.isDone + e.s.dropDone + (if e.s.shoot then 1 else 0)
-  ser : ¬ (e.flushOut = true ∧ e.shootOut = true)
+  /-- no kernel launch request anywhere (the runs considered deliver none) -/
+  nol : e.s.l1Inv = none ∧ ∀ x ∈ e.s.later, x.isLaunch = false
 
 structure CpsSerInv (g : CpSCfg) (e : CpSEnv) : Prop where
   inv : CpInvAll e.proj
@@ -1348,31 +1575,19 @@ theorem CpsSerInv.of_steps {g : CpSCfg} {e e' : CpSEnv} (h : CpsSerInv g e) (hr 
   obtain ⟨i1, i2, _, _⟩ := t.inv h.inv hcap h.nf
   exact ⟨i1, t.kinds h.kinds, i2, r⟩
 
-/-- while a shootdown is in the port or in process, the driver has no flush request outstanding: none
-    waits in the port, none is open, and the flush path's part of the counter and of the cache port is
-    empty -/
-theorem CpsSerInv.no_flush {g : CpSCfg} {e : CpSEnv} (h : CpsSerInv g e)
-    (hs : e.s.shoot = true ∨ 0 < e.s.later.countP SIn.isShoot) :
-    (∀ m ∈ e.proj.s.drvIn, m.kind ≠ .flush) ∧ e.proj.s.numAck = 0 ∧ e.proj.s.cacheOut = [] ∧ e.proj.atCaches = [] ∧
-      e.proj.s.cacheIn = [] := by
-  have hso : e.shootOut = true := by
-    unfold CpSEnv.shootOut
-    have := h.rest.book
-    rcases hs with hs | hs
-    · rw [hs] at this; simp only [if_true] at this
-      exact decide_eq_true (by omega)
-    · exact decide_eq_true (by omega)
-  have hfo : ¬ e.flushOut = true := fun hfo => h.rest.ser ⟨hfo, hso⟩
-  refine h.inv.cps_flush_idle h.kinds h.nf ?_
-  intro hlt
-  exact hfo (decide_eq_true hlt)
+/-- with the counter at 0 and no shootdown in process the flush path's part of the cache port is empty -/
+theorem CpsSerInv.idle_of_zero {g : CpSCfg} {e : CpSEnv} (h : CpsSerInv g e) (hs : e.s.shoot = false)
+    (hn : e.s.c.numAck = 0) : e.s.c.cacheOut = [] ∧ e.atCaches = [] ∧ e.s.c.cacheIn = [] := by
+  have := h.inv.flush.acks
+  simp only [CpSEnv.proj, hs, Bool.false_eq_true, if_false, hn] at this
+  refine ⟨?_, ?_, ?_⟩ <;> apply List.eq_nil_of_length_eq_zero <;> omega
 
 /-- a stage of the copy / flush path leaves the shootdown's bookkeeping alone -/
 theorem CpsSerRest.withC {g : CpSCfg} {e : CpSEnv} (h : CpsSerRest g e) (c' : Cp) (evs : List CpEv)
     (hcfg : Cp.CpsSameCfg c' e.s.c) (hcache : CpsCacheInv (e.withS (e.s.withC c' evs)))
     (hnum : e.s.shoot = true → c'.numAck = e.s.c.numAck) : CpsSerRest g (e.withS (e.s.withC c' evs)) := by
   obtain ⟨c1, c2, c3, c4, c5⟩ := hcfg
-  refine ⟨hcache, ?_, c1.trans h.ncaches, h.kcu, h.kat, h.ktlb, h.nodrop, h.idle, ?_, ?_, h.book, h.ser⟩
+  refine ⟨hcache, ?_, c1.trans h.ncaches, h.kcu, h.kat, h.ktlb, h.nodrop, h.idle, ?_, ?_, h.book, h.nol⟩
   · rw [← h.cfg]
     simp only [CpS.cfg, CpSEnv.withS_s, CpS.withC, c2, c3, c4, c5]
   · intro hs
@@ -1386,9 +1601,11 @@ theorem CpsSerRest.withC {g : CpSCfg} {e : CpSEnv} (h : CpsSerRest g e) (c' : Cp
 
 /-! ## 9. every stage of a pass, seen through the projection -/
 
-theorem CpsSerInv.handle {g : CpSCfg} (hr : g.Roomy) (e : CpSEnv) (h : CpsSerInv g e) : CpsSerInv g (e.withS e.s.handle.1) := by
-  have hci := CpsCacheInv.handle e h.rest.cache
-  rcases CpS.handle_cases e.s with h0 | ⟨m, rest, hf, hd, hn, hk, ⟨k, h1, h2, h0⟩ | ⟨h1, h0⟩ | ⟨h1, h2, h0⟩⟩ |
+theorem CpsSerInv.handleCp {g : CpSCfg} (hr : g.Roomy) (e : CpSEnv) (h : CpsSerInv g e)
+    (hsf : ∀ m rest, e.s.c.drvIn = m :: rest → m.kind = .flush → e.s.shoot = false) :
+    CpsSerInv g (e.withS e.s.handleCp.1) := by
+  have hci := CpsCacheInv.handleCp e h.rest.cache
+  rcases CpS.handleCp_cases e.s with h0 | ⟨m, rest, hf, hd, hn, hk, ⟨k, h1, h2, h0⟩ | ⟨h1, h0⟩ | ⟨h1, h2, h0⟩⟩ |
     ⟨m, rest, hf, hd, hn, hk, hb, h0⟩
   · rw [h0]; exact h
   all_goals
@@ -1396,27 +1613,18 @@ theorem CpsSerInv.handle {g : CpSCfg} (hr : g.Roomy) (e : CpSEnv) (h : CpsSerInv
     have hdp : e.proj.s.drvIn = m :: (rest ++ e.s.later.filterMap SIn.req?) := by
       simp [CpSEnv.proj, hd]
   · -- `processFlushReq`, ToCaches full
-    have hs : e.s.shoot = false := by
-      cases hs : e.s.shoot with
-      | false => rfl
-      | true => exact absurd hk ((h.no_flush (.inl hs)).1 m (by rw [hdp]; simp))
+    have hs : e.s.shoot = false := hsf m rest hd hk
     refine h.of_steps hr ?_ (h.rest.withC _ _ ⟨rfl, rfl, rfl, rfl, rfl⟩ hci (fun hs' => by simp [hs] at hs'))
     refine .single_eq (CpTr.flushFault e.proj m _ k hf hdp (by simp [CpSEnv.proj, hs, hn]) hk h1
       (by simp [CpSEnv.proj, hs]; exact h2)) ?_
     simp [CpSEnv.proj, CpEnv.withS, Cp.flushAsk, CpS.withC, hs, CpSEnv.withS]
   · -- `processFlushReq`, all caches asked
-    have hs : e.s.shoot = false := by
-      cases hs : e.s.shoot with
-      | false => rfl
-      | true => exact absurd hk ((h.no_flush (.inl hs)).1 m (by rw [hdp]; simp))
+    have hs : e.s.shoot = false := hsf m rest hd hk
     refine h.of_steps hr ?_ (h.rest.withC _ _ ⟨rfl, rfl, rfl, rfl, rfl⟩ hci (fun hs' => by simp [hs] at hs'))
     refine .single_eq (CpTr.flushOk e.proj m _ hf hdp (by simp [CpSEnv.proj, hs, hn]) hk h1) ?_
     simp [CpSEnv.proj, CpEnv.withS, Cp.flushAsk, CpS.withC, hs, CpSEnv.withS]
   · -- `processFlushReq` without caches
-    have hs : e.s.shoot = false := by
-      cases hs : e.s.shoot with
-      | false => rfl
-      | true => exact absurd hk ((h.no_flush (.inl hs)).1 m (by rw [hdp]; simp))
+    have hs : e.s.shoot = false := hsf m rest hd hk
     refine h.of_steps hr ?_ (h.rest.withC _ _ ⟨rfl, rfl, rfl, rfl, rfl⟩ hci (fun hs' => by simp [hs] at hs'))
     have hroom : e.proj.s.drvOut.length < e.proj.s.capDrv := by
       have := List.length_filterMap_le SOut.ans? e.s.outEarlier
@@ -1431,6 +1639,18 @@ theorem CpsSerInv.handle {g : CpSCfg} (hr : g.Roomy) (e : CpSEnv) (h : CpsSerInv
       simp only [CpSEnv.proj]; split <;> simp [hn]
     refine .single_eq (CpTr.copy e.proj m _ true hf hdp hnp hk (by simp [CpSEnv.proj]; exact hb)) ?_
     simp [CpSEnv.proj, CpEnv.withS, Cp.copyFwd, CpS.withC, CpSEnv.withS]
+
+theorem CpsSerInv.handle {g : CpSCfg} (hr : g.Roomy) (e : CpSEnv) (h : CpsSerInv g e) : CpsSerInv g (e.withS e.s.handle.1) := by
+  rcases CpS.handle_split e.s with h0 | ⟨m, rest, hd, hsf, h0⟩ | ⟨id, rest, _, _, hl, _⟩
+  · rw [h0]; exact h
+  · rw [h0]
+    refine CpsSerInv.handleCp hr e h ?_
+    intro m' rest' hd' hk'
+    rw [hd] at hd'
+    cases hd'
+    exact hsf hk'
+  · have := h.rest.nol.2 (.launch id) (by rw [hl]; simp)
+    cases this
 
 theorem CpS.proj_room {e : CpSEnv} (h : e.s.outLen < e.s.c.capDrv) : e.proj.s.drvOut.length < e.proj.s.capDrv := by
   have := List.length_filterMap_le SOut.ans? e.s.outEarlier
@@ -1501,7 +1721,7 @@ theorem CpsSerInv.cacheRsp {g : CpSCfg} (hr : g.Roomy) (e : CpSEnv) (h : CpsSerI
   have hci := CpsCacheInv.cacheRsp e h.rest.cache
   cases hs : e.s.shoot with
   | false =>
-    rcases CpS.cacheRsp_cases e.s hs with h0 | ⟨x, rest, n', hf, hd, hn, ⟨hz, h0⟩ | ⟨hz, hc, h0⟩ | ⟨hz, f, hc, hb, h0⟩⟩
+    rcases CpS.cacheRsp_cases e.s hs h.rest.nol.1 with h0 | ⟨x, rest, n', hf, hd, hn, ⟨hz, h0⟩ | ⟨hz, hc, h0⟩ | ⟨hz, f, hc, hb, h0⟩⟩
     · rw [h0]; exact h
     all_goals
       rw [h0] at hci ⊢
@@ -1544,7 +1764,7 @@ theorem CpsSerInv.cacheRsp {g : CpSCfg} (hr : g.Roomy) (e : CpSEnv) (h : CpsSerI
             rw [cps_length_take_of_le (by rw [hto]; simp; omega)]; simp
           have hdrop : ((List.range e.s.nTLB).drop (e.s.capTLB - e.s.tlbOut.length)).length = 0 :=
             cps_length_drop_of_le (by rw [hto]; simp; omega)
-          refine ⟨hci, h.rest.cfg, h.rest.ncaches, h.rest.kcu, h.rest.kat, ?_, ?_, ?_, ?_, ?_, h.rest.book, h.rest.ser⟩
+          refine ⟨hci, h.rest.cfg, h.rest.ncaches, h.rest.kcu, h.rest.kat, ?_, ?_, ?_, ?_, ?_, h.rest.book, h.rest.nol⟩
           · show e.s.numTLB + e.s.nTLB = (e.s.tlbOut ++ _).length + e.atTLB.length + e.s.tlbIn.length
             rw [List.length_append, hlen]; omega
           · obtain ⟨d1, d2, d3, d4⟩ := h.rest.nodrop
@@ -1561,7 +1781,7 @@ theorem CpsSerInv.cacheRsp {g : CpSCfg} (hr : g.Roomy) (e : CpSEnv) (h : CpsSerI
         refine h.of_steps hr (.of_eq ?_) ?_
         · simp [CpSEnv.proj, CpSEnv.withS, hs]
         · refine ⟨hci, h.rest.cfg, h.rest.ncaches, h.rest.kcu, h.rest.kat, h.rest.ktlb, h.rest.nodrop, ?_, ?_, ?_,
-            h.rest.book, h.rest.ser⟩
+            h.rest.book, h.rest.nol⟩
           · intro hs'; exact absurd hs (by simpa using hs')
           · intro _
             show (e.s.numCU = 0 ∨ _) ∧ (e.s.numAT = 0 ∨ _) ∧ (_ ∨ e.s.numTLB = 0)
@@ -1582,10 +1802,11 @@ theorem cps_countP_shoot_dropWhile (l : List SIn) :
     cases a with
     | req m => simp [List.dropWhile_cons, SIn.isReq, SIn.isShoot, ih]
     | shoot id => simp [SIn.isReq]
+    | launch id => simp [SIn.isReq]
 
 /-- `processShootdownCommand` accepted -/
 theorem CpS.hShoot_accept (s : CpS) (hf : s.c.fault = none) (hd : s.c.drvIn = []) (id : Nat) (rest : List SIn)
-    (hl : s.later = .shoot id :: rest) (hs : s.shoot = false) :
+    (hl : s.later = .shoot id :: rest) (hs : s.shoot = false) (hn : s.c.numAck = 0) :
     s.hShoot =
       ({ s with
          shoot := true
@@ -1599,10 +1820,12 @@ theorem CpS.hShoot_accept (s : CpS) (hf : s.c.fault = none) (hd : s.c.drvIn = []
   unfold CpS.hShoot
   rw [if_neg (by simp [hf])]
   simp only [hd, hl, hs]
+  rw [if_neg (by decide), if_neg (by omega)]
   rfl
 
 theorem CpS.hShoot_noop (s : CpS)
-    (h : s.c.fault.isSome = true ∨ s.c.drvIn ≠ [] ∨ s.shoot = true ∨ ∀ id rest, s.later ≠ .shoot id :: rest) :
+    (h : s.c.fault.isSome = true ∨ s.c.drvIn ≠ [] ∨ s.shoot = true ∨ 0 < s.c.numAck ∨
+      ∀ id rest, s.later ≠ .shoot id :: rest) :
     s.hShoot = (s, false) := by
   unfold CpS.hShoot
   split
@@ -1610,17 +1833,21 @@ theorem CpS.hShoot_noop (s : CpS)
   · split
     · split
       · rfl
-      · exfalso
-        rcases h with h | h | h | h
-        · simp_all
-        · simp_all
-        · simp_all
-        · simp_all
+      · split
+        · rfl
+        · exfalso
+          rcases h with h | h | h | h | h
+          · simp_all
+          · simp_all
+          · simp_all
+          · omega
+          · simp_all
     · rfl
 
 theorem CpsSerInv.hShoot {g : CpSCfg} (hr : g.Roomy) (e : CpSEnv) (h : CpsSerInv g e) : CpsSerInv g (e.withS e.s.hShoot.1) := by
   have hci := CpsCacheInv.hShoot e h.rest.cache
-  by_cases hno : e.s.c.fault.isSome = true ∨ e.s.c.drvIn ≠ [] ∨ e.s.shoot = true ∨ ∀ id rest, e.s.later ≠ .shoot id :: rest
+  by_cases hno : e.s.c.fault.isSome = true ∨ e.s.c.drvIn ≠ [] ∨ e.s.shoot = true ∨ 0 < e.s.c.numAck ∨
+      ∀ id rest, e.s.later ≠ .shoot id :: rest
   · rw [CpS.hShoot_noop e.s hno]; exact h
   · have hd : e.s.c.drvIn = [] := by
       cases hd : e.s.c.drvIn with
@@ -1630,14 +1857,16 @@ theorem CpsSerInv.hShoot {g : CpSCfg} (hr : g.Roomy) (e : CpSEnv) (h : CpsSerInv
       cases hs : e.s.shoot with
       | false => rfl
       | true => exact absurd (.inr (.inr (.inl hs))) hno
+    have f2 : e.s.c.numAck = 0 := by
+      apply Decidable.byContradiction; intro hne
+      exact hno (.inr (.inr (.inr (.inl (by omega)))))
     have hl : ∃ id rest, e.s.later = .shoot id :: rest := by
       apply Classical.byContradiction
       intro hc
-      exact hno (.inr (.inr (.inr (fun id rest heq => hc ⟨id, rest, heq⟩))))
+      exact hno (.inr (.inr (.inr (.inr (fun id rest heq => hc ⟨id, rest, heq⟩)))))
     obtain ⟨id, rest, hl⟩ := hl
     obtain ⟨ro1, ro2, ro3, ro4, ro5, ro6, ro7, ro8, ro9⟩ := h.rest.roomy hr
-    obtain ⟨_, f2, f3, f4, f5⟩ := h.no_flush (.inr (by rw [hl]; simp [SIn.isShoot]))
-    simp only [CpSEnv.proj, hs, Bool.false_eq_true, if_false] at f2 f3 f4 f5
+    obtain ⟨f3, f4, f5⟩ := h.idle_of_zero hs f2
     obtain ⟨i1, i2, i3⟩ := h.rest.idle hs
     have hkc := h.rest.kcu
     have hco : e.s.cuOut = [] := List.eq_nil_of_length_eq_zero (by omega)
@@ -1645,10 +1874,11 @@ theorem CpsSerInv.hShoot {g : CpSCfg} (hr : g.Roomy) (e : CpSEnv) (h : CpsSerInv
       rw [cps_length_take_of_le (by rw [hco]; simp; omega)]; simp
     have hdrop : ((List.range e.s.nCU).drop (e.s.capCU - e.s.cuOut.length)).length = 0 :=
       cps_length_drop_of_le (by rw [hco]; simp; omega)
-    rw [CpS.hShoot_accept e.s h.nf hd id rest hl hs] at hci ⊢
+    rw [CpS.hShoot_accept e.s h.nf hd id rest hl hs f2] at hci ⊢
     refine h.of_steps hr (.of_eq ?_) ?_
     · simp [CpSEnv.proj, CpSEnv.withS, hs, hd, hl, f2, f3, f4, f5, SIn.req?, cps_filterMap_req_split, List.filterMap_cons]
-    · refine ⟨hci, h.rest.cfg, h.rest.ncaches, ?_, h.rest.kat, h.rest.ktlb, ?_, ?_, ?_, ?_, ?_, h.rest.ser⟩
+    · refine ⟨hci, h.rest.cfg, h.rest.ncaches, ?_, h.rest.kat, h.rest.ktlb, ?_, ?_, ?_, ?_, ?_,
+        ⟨h.rest.nol.1, fun x hx => h.rest.nol.2 x (by rw [hl]; exact List.mem_cons_of_mem _ ((List.dropWhile_sublist _).subset hx))⟩⟩
       · show e.s.numCU + e.s.nCU = (e.s.cuOut ++ _).length + e.atCU.length + e.s.cuIn.length
         rw [List.length_append, hlen]; omega
       · obtain ⟨d1, d2, d3, d4⟩ := h.rest.nodrop
@@ -1720,7 +1950,7 @@ theorem CpsSerInv.rCU {g : CpSCfg} (hr : g.Roomy) (e : CpSEnv) (h : CpsSerInv g 
       have hdrop : ((List.range e.s.nAT).drop (e.s.capAT - e.s.atOut.length)).length = 0 :=
         cps_length_drop_of_le (by rw [hao]; simp; omega)
       refine h.of_steps hr (.of_eq rfl) ?_
-      refine ⟨hci, h.rest.cfg, h.rest.ncaches, ?_, ?_, h.rest.ktlb, ?_, ?_, ?_, ?_, h.rest.book, h.rest.ser⟩
+      refine ⟨hci, h.rest.cfg, h.rest.ncaches, ?_, ?_, h.rest.ktlb, ?_, ?_, ?_, ?_, h.rest.book, h.rest.nol⟩
       · show e.s.numCU - 1 = e.s.cuOut.length + e.atCU.length + rest.length
         omega
       · show e.s.numAT + e.s.nAT = (e.s.atOut ++ _).length + e.atAT.length + e.s.atIn.length
@@ -1737,7 +1967,7 @@ theorem CpsSerInv.rCU {g : CpSCfg} (hr : g.Roomy) (e : CpSEnv) (h : CpsSerInv g 
     · rename_i hz
       rw [if_neg hz] at hci
       refine h.of_steps hr (.of_eq rfl) ?_
-      refine ⟨hci, h.rest.cfg, h.rest.ncaches, ?_, h.rest.kat, h.rest.ktlb, h.rest.nodrop, ?_, ?_, ?_, h.rest.book, h.rest.ser⟩
+      refine ⟨hci, h.rest.cfg, h.rest.ncaches, ?_, h.rest.kat, h.rest.ktlb, h.rest.nodrop, ?_, ?_, ?_, h.rest.book, h.rest.nol⟩
       · show e.s.numCU - 1 = e.s.cuOut.length + e.atCU.length + rest.length
         omega
       · intro hs'; exact absurd hs (by simpa using hs')
@@ -1798,7 +2028,7 @@ theorem CpsSerInv.rAT {g : CpSCfg} (hr : g.Roomy) (e : CpSEnv) (h : CpsSerInv g 
         cps_length_drop_of_le (by rw [hco]; simp; omega)
       refine h.of_steps hr (.of_eq ?_) ?_
       · simp [CpSEnv.proj, CpSEnv.withS, hs]
-      refine ⟨hci, h.rest.cfg, h.rest.ncaches, h.rest.kcu, ?_, h.rest.ktlb, ?_, ?_, ?_, ?_, h.rest.book, h.rest.ser⟩
+      refine ⟨hci, h.rest.cfg, h.rest.ncaches, h.rest.kcu, ?_, h.rest.ktlb, ?_, ?_, ?_, ?_, h.rest.book, h.rest.nol⟩
       · show e.s.numAT - 1 = e.s.atOut.length + e.atAT.length + rest.length
         omega
       · obtain ⟨d1, d2, d3, d4⟩ := h.rest.nodrop
@@ -1813,7 +2043,7 @@ theorem CpsSerInv.rAT {g : CpSCfg} (hr : g.Roomy) (e : CpSEnv) (h : CpsSerInv g 
     · rename_i hz
       rw [if_neg hz] at hci
       refine h.of_steps hr (.of_eq rfl) ?_
-      refine ⟨hci, h.rest.cfg, h.rest.ncaches, h.rest.kcu, ?_, h.rest.ktlb, h.rest.nodrop, ?_, ?_, ?_, h.rest.book, h.rest.ser⟩
+      refine ⟨hci, h.rest.cfg, h.rest.ncaches, h.rest.kcu, ?_, h.rest.ktlb, h.rest.nodrop, ?_, ?_, ?_, h.rest.book, h.rest.nol⟩
       · show e.s.numAT - 1 = e.s.atOut.length + e.atAT.length + rest.length
         omega
       · intro hs'; exact absurd hs (by simpa using hs')
@@ -1894,7 +2124,7 @@ theorem CpsSerInv.rTLB {g : CpSCfg} (hr : g.Roomy) (e : CpSEnv) (h : CpsSerInv g
         rw [if_pos hroom] at hci
         refine h.of_steps hr (.of_eq ?_) ?_
         · simp [CpSEnv.proj, CpSEnv.withS, hs, hak, hco, hca, hcin, List.filterMap_append, cps_filterMap_ans_comp, List.filterMap_cons, SOut.ans?]
-        refine ⟨hci, h.rest.cfg, h.rest.ncaches, h.rest.kcu, h.rest.kat, ?_, h.rest.nodrop, ?_, ?_, ?_, ?_, h.rest.ser⟩
+        refine ⟨hci, h.rest.cfg, h.rest.ncaches, h.rest.kcu, h.rest.kat, ?_, h.rest.nodrop, ?_, ?_, ?_, ?_, h.rest.nol⟩
         · show e.s.numTLB - 1 = e.s.tlbOut.length + e.atTLB.length + rest.length
           omega
         · intro _
@@ -1911,7 +2141,7 @@ theorem CpsSerInv.rTLB {g : CpSCfg} (hr : g.Roomy) (e : CpSEnv) (h : CpsSerInv g
         rw [if_neg hroom] at hci
         refine h.of_steps hr (.of_eq ?_) ?_
         · simp [CpSEnv.proj, CpSEnv.withS, hs, hak, hco, hca, hcin]
-        refine ⟨hci, h.rest.cfg, h.rest.ncaches, h.rest.kcu, h.rest.kat, ?_, h.rest.nodrop, ?_, ?_, ?_, ?_, h.rest.ser⟩
+        refine ⟨hci, h.rest.cfg, h.rest.ncaches, h.rest.kcu, h.rest.kat, ?_, h.rest.nodrop, ?_, ?_, ?_, ?_, h.rest.nol⟩
         · show e.s.numTLB - 1 = e.s.tlbOut.length + e.atTLB.length + rest.length
           omega
         · intro _
@@ -1925,7 +2155,7 @@ theorem CpsSerInv.rTLB {g : CpSCfg} (hr : g.Roomy) (e : CpSEnv) (h : CpsSerInv g
     · rename_i hz
       rw [if_neg hz] at hci
       refine h.of_steps hr (.of_eq rfl) ?_
-      refine ⟨hci, h.rest.cfg, h.rest.ncaches, h.rest.kcu, h.rest.kat, ?_, h.rest.nodrop, ?_, ?_, ?_, ?_, h.rest.ser⟩
+      refine ⟨hci, h.rest.cfg, h.rest.ncaches, h.rest.kcu, h.rest.kat, ?_, h.rest.nodrop, ?_, ?_, ?_, ?_, h.rest.nol⟩
       · show e.s.numTLB - 1 = e.s.tlbOut.length + e.atTLB.length + rest.length
         omega
       · intro hs'; exact absurd hs (by simpa using hs')
@@ -1998,23 +2228,33 @@ theorem CpsSerInv.step {g : CpSCfg} (hr : g.Roomy) (e : CpSEnv) (op : SOp) (h : 
         rw [List.countP_append]
         simp [SIn.isShoot]
         omega
-      · intro ⟨hfo, _⟩
-        simp only [CpSEnv.okOp, Bool.not_eq_true'] at hok
-        have : e.flushOut = true := hfo
-        rw [hok] at this; cases this
+      · refine ⟨hR.nol.1, ?_⟩
+        intro x hx
+        rcases List.mem_append.1 hx with hx | hx
+        · exact hR.nol.2 x hx
+        · simp only [List.mem_singleton] at hx; subst hx; rfl
     · exact h
+  | launch => simp [CpSEnv.okOp] at hok
+  | kdone =>
+    simp only [CpSEnv.step] at hci ⊢
+    split
+    · exact h
+    · rename_i hb
+      rw [if_neg hb] at hci
+      refine h.of_steps hr (.of_eq rfl) ?_
+      exact ⟨hci, hR.cfg, hR.ncaches, hR.kcu, hR.kat, hR.ktlb, hR.nodrop, hR.idle, hR.phase, hR.live, hR.book, hR.nol⟩
   | take c k =>
     have hl := cps_length_take_add_drop k (e.s.out c)
     cases c <;> simp only [CpS.out] at hl <;> refine h.of_steps hr (.of_eq rfl) ?_
-    · refine ⟨hci, hR.cfg, hR.ncaches, ?_, hR.kat, hR.ktlb, hR.nodrop, hR.idle, hR.phase, hR.live, hR.book, hR.ser⟩
+    · refine ⟨hci, hR.cfg, hR.ncaches, ?_, hR.kat, hR.ktlb, hR.nodrop, hR.idle, hR.phase, hR.live, hR.book, hR.nol⟩
       have := hR.kcu
       show e.s.numCU = (e.s.cuOut.drop k).length + (e.atCU ++ e.s.cuOut.take k).length + e.s.cuIn.length
       rw [List.length_append]; omega
-    · refine ⟨hci, hR.cfg, hR.ncaches, hR.kcu, ?_, hR.ktlb, hR.nodrop, hR.idle, hR.phase, hR.live, hR.book, hR.ser⟩
+    · refine ⟨hci, hR.cfg, hR.ncaches, hR.kcu, ?_, hR.ktlb, hR.nodrop, hR.idle, hR.phase, hR.live, hR.book, hR.nol⟩
       have := hR.kat
       show e.s.numAT = (e.s.atOut.drop k).length + (e.atAT ++ e.s.atOut.take k).length + e.s.atIn.length
       rw [List.length_append]; omega
-    · refine ⟨hci, hR.cfg, hR.ncaches, hR.kcu, hR.kat, ?_, hR.nodrop, hR.idle, hR.phase, hR.live, hR.book, hR.ser⟩
+    · refine ⟨hci, hR.cfg, hR.ncaches, hR.kcu, hR.kat, ?_, hR.nodrop, hR.idle, hR.phase, hR.live, hR.book, hR.nol⟩
       have := hR.ktlb
       show e.s.numTLB = (e.s.tlbOut.drop k).length + (e.atTLB ++ e.s.tlbOut.take k).length + e.s.tlbIn.length
       rw [List.length_append]; omega
@@ -2037,15 +2277,15 @@ theorem CpsSerInv.step {g : CpSCfg} (hr : g.Roomy) (e : CpSEnv) (op : SOp) (h : 
             ((e.pend c).eraseIdx (j % (e.pend c).length))) := by
           cases c <;> exact h.rest.cache.of_eq rfl rfl rfl rfl rfl rfl
         cases c <;> simp only [CpSEnv.pend] at hlt hpos <;> refine h.of_steps hr (.of_eq rfl) ?_
-        · refine ⟨hci', hR.cfg, hR.ncaches, ?_, hR.kat, hR.ktlb, hR.nodrop, hR.idle, hR.phase, hR.live, hR.book, hR.ser⟩
+        · refine ⟨hci', hR.cfg, hR.ncaches, ?_, hR.kat, hR.ktlb, hR.nodrop, hR.idle, hR.phase, hR.live, hR.book, hR.nol⟩
           have := hR.kcu
           show e.s.numCU = e.s.cuOut.length + (e.atCU.eraseIdx (j % e.atCU.length)).length + (e.s.cuIn ++ [_]).length
           rw [List.length_append, List.length_eraseIdx, if_pos hlt]; simp; omega
-        · refine ⟨hci', hR.cfg, hR.ncaches, hR.kcu, ?_, hR.ktlb, hR.nodrop, hR.idle, hR.phase, hR.live, hR.book, hR.ser⟩
+        · refine ⟨hci', hR.cfg, hR.ncaches, hR.kcu, ?_, hR.ktlb, hR.nodrop, hR.idle, hR.phase, hR.live, hR.book, hR.nol⟩
           have := hR.kat
           show e.s.numAT = e.s.atOut.length + (e.atAT.eraseIdx (j % e.atAT.length)).length + (e.s.atIn ++ [_]).length
           rw [List.length_append, List.length_eraseIdx, if_pos hlt]; simp; omega
-        · refine ⟨hci', hR.cfg, hR.ncaches, hR.kcu, hR.kat, ?_, hR.nodrop, hR.idle, hR.phase, hR.live, hR.book, hR.ser⟩
+        · refine ⟨hci', hR.cfg, hR.ncaches, hR.kcu, hR.kat, ?_, hR.nodrop, hR.idle, hR.phase, hR.live, hR.book, hR.nol⟩
           have := hR.ktlb
           show e.s.numTLB = e.s.tlbOut.length + (e.atTLB.eraseIdx (j % e.atTLB.length)).length + (e.s.tlbIn ++ [_]).length
           rw [List.length_append, List.length_eraseIdx, if_pos hlt]; simp; omega
@@ -2062,45 +2302,37 @@ theorem CpsSerInv.step {g : CpSCfg} (hr : g.Roomy) (e : CpSEnv) (op : SOp) (h : 
           simp only [CpSEnv.proj, List.length_append]
           unfold CpS.portLen at hlt
           omega
-        have hser : ¬ (CpSEnv.flushOut { e with sent := e.sent ++ [⟨e.sent.length, k⟩] } = true ∧ e.shootOut = true) := by
-          intro ⟨hfo, hso⟩
-          cases k with
-          | flush =>
-            simp only [CpSEnv.okOp, Bool.not_eq_true'] at hok
-            rw [hok] at hso; cases hso
-          | h2d =>
-            refine hR.ser ⟨?_, hso⟩
-            simpa [CpSEnv.flushOut, List.countP_append, cpsIsFlushMsg] using hfo
-          | d2h =>
-            refine hR.ser ⟨?_, hso⟩
-            simpa [CpSEnv.flushOut, List.countP_append, cpsIsFlushMsg] using hfo
         cases hle : e.s.later with
         | nil =>
           simp only [hle, List.isEmpty_nil, if_true] at hci ⊢
           refine h.of_steps hr (.single_eq (CpTr.req e.proj k hlt') ?_) ?_
           · simp [CpSEnv.proj, hle]
           · exact ⟨hci, hR.cfg, hR.ncaches, hR.kcu, hR.kat, hR.ktlb, hR.nodrop, hR.idle, hR.phase, hR.live,
-              by simpa [hle] using hR.book, hser⟩
+              by simpa [hle] using hR.book, ⟨hR.nol.1, by simp [hle]⟩⟩
         | cons a l =>
           simp only [hle, List.isEmpty_cons, Bool.false_eq_true, if_false] at hci ⊢
           refine h.of_steps hr (.single_eq (CpTr.req e.proj k hlt') ?_) ?_
           · cases a <;> simp [CpSEnv.proj, hle, List.filterMap_append, List.filterMap_cons, SIn.req?]
-          · refine ⟨hci, hR.cfg, hR.ncaches, hR.kcu, hR.kat, hR.ktlb, hR.nodrop, hR.idle, hR.phase, hR.live, ?_, hser⟩
-            have hb := hR.book
-            rw [hle] at hb
-            show e.shootSent = (a :: l ++ [SIn.req ⟨e.sent.length, k⟩]).countP SIn.isShoot + e.drained.countP SOut.isDone +
-              e.s.outEarlier.countP SOut.isDone + e.s.dropDone + (if e.s.shoot = true then 1 else 0)
-            rw [List.countP_append]
-            simp only [List.countP_cons, List.countP_nil, SIn.isShoot, Bool.false_eq_true, if_false] at hb ⊢
-            omega
+          · refine ⟨hci, hR.cfg, hR.ncaches, hR.kcu, hR.kat, hR.ktlb, hR.nodrop, hR.idle, hR.phase, hR.live, ?_, ⟨hR.nol.1, ?_⟩⟩
+            · have hb := hR.book
+              rw [hle] at hb
+              show e.shootSent = (a :: l ++ [SIn.req ⟨e.sent.length, k⟩]).countP SIn.isShoot + e.drained.countP SOut.isDone +
+                e.s.outEarlier.countP SOut.isDone + e.s.dropDone + (if e.s.shoot = true then 1 else 0)
+              rw [List.countP_append]
+              simp only [List.countP_cons, List.countP_nil, SIn.isShoot, Bool.false_eq_true, if_false] at hb ⊢
+              omega
+            · intro x hx
+              rcases List.mem_append.1 hx with hx | hx
+              · exact hR.nol.2 x (by rw [hle]; exact hx)
+              · simp only [List.mem_singleton] at hx; subst hx; rfl
       · exact h
     | takeDma k =>
       refine h.of_steps hr (.single_eq (CpTr.takeDma e.proj k) ?_) ?_
       · simp [CpSEnv.proj, CpSEnv.step]
-      · exact ⟨hci, hR.cfg, hR.ncaches, hR.kcu, hR.kat, hR.ktlb, hR.nodrop, hR.idle, hR.phase, hR.live, hR.book, hR.ser⟩
+      · exact ⟨hci, hR.cfg, hR.ncaches, hR.kcu, hR.kat, hR.ktlb, hR.nodrop, hR.idle, hR.phase, hR.live, hR.book, hR.nol⟩
     | takeCache k =>
       have hrest : CpsSerRest g (e.step (.cp (.takeCache k))).1 :=
-        ⟨hci, hR.cfg, hR.ncaches, hR.kcu, hR.kat, hR.ktlb, hR.nodrop, hR.idle, hR.phase, hR.live, hR.book, hR.ser⟩
+        ⟨hci, hR.cfg, hR.ncaches, hR.kcu, hR.kat, hR.ktlb, hR.nodrop, hR.idle, hR.phase, hR.live, hR.book, hR.nol⟩
       cases hs : e.s.shoot with
       | true =>
         refine h.of_steps hr (.of_eq ?_) hrest
@@ -2124,18 +2356,7 @@ theorem CpsSerInv.step {g : CpSCfg} (hr : g.Roomy) (e : CpSEnv) (op : SOp) (h : 
             (e.s.outEarlier.drop k).countP SOut.isDone + e.s.dropDone + (if e.s.shoot = true then 1 else 0)
           rw [List.countP_append, List.countP_append, cps_countP_done_map_ans]
           omega
-        · intro ⟨hfo, hso⟩
-          refine hR.ser ⟨?_, ?_⟩
-          · have hfo' : ((e.drained ++ (e.s.outEarlier.take k ++
-                (e.s.c.drvOut.take (k - (e.s.outEarlier.take k).length)).map SOut.ans)).filterMap SOut.ans?).countP cpsIsFlushMsg <
-                e.sent.countP cpsIsFlushMsg := of_decide_eq_true hfo
-            rw [List.filterMap_append, List.countP_append] at hfo'
-            exact decide_eq_true (by omega)
-          · have hso' : (e.drained ++ (e.s.outEarlier.take k ++
-                (e.s.c.drvOut.take (k - (e.s.outEarlier.take k).length)).map SOut.ans)).countP SOut.isDone < e.shootSent :=
-              of_decide_eq_true hso
-            rw [List.countP_append] at hso'
-            exact decide_eq_true (by omega)
+        · exact hR.nol
     | ack j =>
       simp only [CpSEnv.step] at hci ⊢
       split
@@ -2158,11 +2379,11 @@ theorem CpsSerInv.step {g : CpSCfg} (hr : g.Roomy) (e : CpSEnv) (op : SOp) (h : 
             omega
           rcases Bool.eq_false_or_eq_true e.s.shoot with hs | hs
           · refine h.of_steps hr (.of_eq ?_)
-              ⟨hci, hR.cfg, hR.ncaches, hR.kcu, hR.kat, hR.ktlb, hR.nodrop, hR.idle, hR.phase, hR.live, hR.book, hR.ser⟩
+              ⟨hci, hR.cfg, hR.ncaches, hR.kcu, hR.kat, hR.ktlb, hR.nodrop, hR.idle, hR.phase, hR.live, hR.book, hR.nol⟩
             simp [CpSEnv.proj, hs]
           · refine h.of_steps hr (.single_eq (CpTr.ackEnv e.proj (j % e.atCaches.length)
               (e.atCaches.getD (j % e.atCaches.length) 0) (by simpa [CpSEnv.proj, hs] using hlt)) ?_)
-              ⟨hci, hR.cfg, hR.ncaches, hR.kcu, hR.kat, hR.ktlb, hR.nodrop, hR.idle, hR.phase, hR.live, hR.book, hR.ser⟩
+              ⟨hci, hR.cfg, hR.ncaches, hR.kcu, hR.kat, hR.ktlb, hR.nodrop, hR.idle, hR.phase, hR.live, hR.book, hR.nol⟩
             simp [CpSEnv.proj, hs]
     | rsp j =>
       simp only [CpSEnv.step] at hci ⊢
@@ -2176,7 +2397,7 @@ theorem CpsSerInv.step {g : CpSCfg} (hr : g.Roomy) (e : CpSEnv) (op : SOp) (h : 
             refine h.of_steps hr (.single_eq (CpTr.rspEnv e.proj _ c hc) ?_) ?_
             · simp [CpSEnv.proj]
             · exact ⟨h.rest.cache.of_eq rfl rfl rfl rfl rfl rfl, hR.cfg, hR.ncaches, hR.kcu, hR.kat, hR.ktlb, hR.nodrop,
-                hR.idle, hR.phase, hR.live, hR.book, hR.ser⟩
+                hR.idle, hR.phase, hR.live, hR.book, hR.nol⟩
 
 theorem CpsSerInv.init (g : CpSCfg) : CpsSerInv g (CpSEnv.init g) := by
   have hp : (CpSEnv.init g).proj = CpEnv.init g.nCaches g.capIn g.capDrv g.capDma g.capCache := rfl
@@ -2187,8 +2408,7 @@ theorem CpsSerInv.init (g : CpSCfg) : CpsSerInv g (CpSEnv.init g) := by
   · intro ev hev
     rw [hp] at hev
     cases hev
-  · intro ⟨_, hso⟩
-    simp [CpSEnv.shootOut, CpSEnv.init] at hso
+  · exact ⟨rfl, fun x hx => by cases hx⟩
 
 theorem CpsSerInv.run {g : CpSCfg} (hr : g.Roomy) (ops : List SOp) (e : CpSEnv) (h : CpsSerInv g e)
     (hs : e.serial ops = true) : CpsSerInv g (e.run ops) := by
@@ -2206,9 +2426,46 @@ theorem cps_reach_serInv (g : CpSCfg) (hr : g.Roomy) (ops : List SOp) (hs : (CpS
 
 theorem CpS.liftCp_log (s : CpS) (r : Cp × Bool) : (s.liftCp r).1.c.log = r.1.log := rfl
 
+theorem CpS.invalidate_clog (id : Nat) (s : CpS) (i : Nat) : (CpS.invalidate id s i).c.log = s.c.log := by
+  unfold CpS.invalidate
+  split
+  · rfl
+  · split <;> rfl
+
+theorem CpS.foldl_invalidate_clog (id : Nat) : ∀ (ms : List Nat) (s : CpS),
+    (ms.foldl (CpS.invalidate id) s).c.log = s.c.log
+  | [], _ => rfl
+  | i :: ms, s => by
+    simp only [List.foldl_cons]
+    rw [CpS.foldl_invalidate_clog id ms, CpS.invalidate_clog]
+
+theorem CpS.launch_clog (s : CpS) (id : Nat) (rest : List SIn) : (s.launch id rest).1.c.log = s.c.log := by
+  unfold CpS.launch
+  split
+  · rfl
+  · split
+    · rfl
+    · split
+      · rfl
+      · split
+        · rfl
+        · simp only
+          split
+          · exact CpS.foldl_invalidate_clog id _ s
+          · split
+            · exact CpS.foldl_invalidate_clog id _ s
+            · exact CpS.foldl_invalidate_clog id _ s
+
 theorem cps_nodrop_handle (e : CpSEnv) (h : NoDrop e.s.c) : NoDrop (e.withS e.s.handle.1).s.c := by
-  have : NoDrop e.s.cpView := h
-  exact handle_nodrop this
+  rcases CpS.handle_split e.s with h0 | ⟨m, rest, _, _, h0⟩ | ⟨id, rest, _, _, _, h0⟩
+  · rw [h0]; exact h
+  · rw [h0]
+    have : NoDrop e.s.cpView := h
+    exact handle_nodrop this
+  · rw [h0]
+    intro ev hev
+    rw [CpSEnv.withS_s, CpS.launch_clog] at hev
+    exact h ev hev
 
 theorem cps_nodrop_dmaRsp (e : CpSEnv) (h : NoDrop e.s.c) : NoDrop (e.withS e.s.dmaRsp.1).s.c := by
   have : NoDrop e.s.cpView := h
@@ -2229,9 +2486,24 @@ theorem cps_nodrop_cacheRsp (e : CpSEnv) (h : NoDrop e.s.c) : NoDrop (e.withS e.
     intro ev hev
     rw [CpSEnv.withS_s, hl] at hev
     exact h ev hev
-  · rw [CpSEnv.withS_s, CpS.cacheRsp_of_not_shoot _ hs]
-    have : NoDrop e.s.cpView := h
-    exact cacheRsp_nodrop this
+  · cases hl1 : e.s.l1Inv with
+    | none =>
+      rw [CpSEnv.withS_s, CpS.cacheRsp_of_not_shoot _ hs hl1]
+      have : NoDrop e.s.cpView := h
+      exact cacheRsp_nodrop this
+    | some x =>
+      have hl : (e.s.cacheRsp).1.c.log = e.s.c.log := by
+        unfold CpS.cacheRsp
+        split
+        · rfl
+        · split
+          · rfl
+          · split
+            · rfl
+            · simp only [hs, hl1, Bool.false_eq_true, if_false, Option.isSome_some, if_true]
+      intro ev hev
+      rw [CpSEnv.withS_s, hl] at hev
+      exact h ev hev
 
 theorem cps_nodrop_stages : CpsStagePres (fun e => NoDrop e.s.c) := by
   refine ⟨cps_nodrop_handle, cps_nodrop_dmaRsp, ?_, ?_, ?_, cps_nodrop_cacheRsp, ?_⟩
@@ -2241,7 +2513,9 @@ theorem cps_nodrop_stages : CpsStagePres (fun e => NoDrop e.s.c) := by
       split
       · rfl
       · split
-        · split <;> rfl
+        · split
+          · rfl
+          · split <;> rfl
         · rfl
     intro ev hev
     rw [CpSEnv.withS_s, hl] at hev
@@ -2291,6 +2565,8 @@ theorem CpSEnv.step_log (e : CpSEnv) (op : SOp) (hop : op ≠ .cp .tick) : (e.st
   cases op with
   | query => rfl
   | shoot => simp only [CpSEnv.step]; split <;> rfl
+  | launch => simp only [CpSEnv.step]; split <;> rfl
+  | kdone => simp only [CpSEnv.step]; split <;> rfl
   | take c k => cases c <;> rfl
   | ack c j =>
     simp only [CpSEnv.step]
@@ -2364,5 +2640,64 @@ theorem CpsSerInv.quiet_answered {g : CpSCfg} {e : CpSEnv} (hr : g.Roomy) (h : C
     rw [q2, q3, hdd, hs] at hb
     simp at hb
     exact hb.symm
+
+/-! ## 10. launch-free runs, the third user of the counter, the code before repair 0728adcb -/
+
+/-- a list of moves that delivers no kernel launch request -/
+def cpsNoLaunch (ops : List SOp) : Prop := ∀ op ∈ ops, op ≠ SOp.launch
+
+theorem cps_serial_of_noLaunch : ∀ (ops : List SOp) (e : CpSEnv), cpsNoLaunch ops → e.serial ops = true
+  | [], _, _ => rfl
+  | op :: rest, e, h => by
+    simp only [CpSEnv.serial, Bool.and_eq_true]
+    refine ⟨?_, cps_serial_of_noLaunch rest _ (fun o ho => h o (List.mem_cons_of_mem _ ho))⟩
+    have := h op (List.mem_cons_self ..)
+    cases op <;> first | rfl | exact absurd rfl this
+
+/-- state of the code BEFORE repair 0728adcb after a list of environment moves -/
+def reachCpsOld (g : CpSCfg) (ops : List SOp) : CpSEnv := (CpSEnv.init g).runOld ops
+
+/-- **while `numCacheACK > 0` nothing is taken from the driver port** — neither a copy, nor a flush
+    request, nor a kernel launch request (`cpMiddleware.Handle`), nor a shootdown command
+    (`processShootdownCommand`): every user of the counter waits for whoever holds it -/
+theorem CpS.counter_blocks (s : CpS) (h : 0 < s.c.numAck) : s.handle = (s, false) ∧ s.hShoot = (s, false) := by
+  refine ⟨?_, CpS.hShoot_noop s (.inr (.inr (.inr (.inl h))))⟩
+  rcases CpS.handle_split s with h0 | ⟨m, rest, hd, _, h0⟩ | ⟨id, rest, _, _, _, h0⟩
+  · exact h0
+  · rw [h0]
+    unfold CpS.handleCp
+    have : s.cpView.handle = (s.cpView, false) := by
+      unfold Cp.handle
+      split
+      · rfl
+      · have hd' : s.cpView.drvIn = m :: rest := hd
+        simp only [hd']
+        rw [if_pos (by exact h)]
+    rw [this, CpS.liftCp_noop]
+  · rw [h0]
+    unfold CpS.launch
+    split
+    · rfl
+    · first
+      | rfl
+      | (rw [if_pos h])
+
+/-- **nothing is answered for the kernel-start invalidation**: an acknowledgement processed while
+    `l1InvalidatedFor != nil` (and no shootdown is in process) only decrements the counter — ToDriver, the
+    flush in `currFlushRequest` and the copy / flush path's event log are untouched -/
+theorem CpS.invalidation_answers_nothing (s : CpS) (hs : s.shoot = false) (hl : s.l1Inv.isSome = true) :
+    s.cacheRsp.1.c.drvOut = s.c.drvOut ∧ s.cacheRsp.1.outEarlier = s.outEarlier ∧
+    s.cacheRsp.1.c.curFlush = s.c.curFlush ∧ s.cacheRsp.1.c.log = s.c.log ∧ s.cacheRsp.1.l1Inv = s.l1Inv := by
+  unfold CpS.cacheRsp
+  split
+  · exact ⟨rfl, rfl, rfl, rfl, rfl⟩
+  · split
+    · exact ⟨rfl, rfl, rfl, rfl, rfl⟩
+    · split
+      · exact ⟨rfl, rfl, rfl, rfl, rfl⟩
+      · simp [hs, hl]
+
+theorem CpSEnv.init_plain (g : CpSCfg) : (CpSEnv.init g).Plain :=
+  ⟨⟨rfl, rfl, rfl, rfl, rfl, rfl, rfl, rfl, rfl, rfl⟩, rfl, rfl, rfl⟩
 
 end C11
